@@ -20,6 +20,25 @@ structure CVFolds (ι κ : Type) where
   validationFolds : List (List Nat)
   deriving Repr
 
+/-! ### `detail::complement(set, n, comp)` as the C++ computes it: `[0,n)`, a sorted copy of the index set,
+`std::set_difference` of the two (proved equal to the specification `Data.complement` for every index set,
+sorted or not, with or without repetitions: `C12.complementSD_eq`) -/
+
+/-- `std::set_difference(first1, last1, first2, last2, out)` on two ascending ranges -/
+def setDifference : List Nat → List Nat → List Nat
+  | [], _ => []
+  | a :: as, [] => a :: as
+  | a :: as, b :: bs =>
+    if a < b then a :: setDifference as (b :: bs)
+    else if b < a then setDifference (a :: as) bs
+    else setDifference as bs
+termination_by l1 l2 => l1.length + l2.length
+
+def complementSD (set : List Nat) (n : Nat) : List Nat :=
+  let parentSet := List.range n
+  let setCopy := set.mergeSort (fun a b => decide (a ≤ b))       -- std::sort of the copy
+  setDifference parentSet setCopy
+
 namespace CVFolds
 
 /-- the loop of `CVFolds(set, foldStart)`: fold i validates on batches [foldStart[i], foldStart[i+1])
@@ -34,6 +53,9 @@ def foldsFromStarts : List Nat → Nat → Option (List (List Nat))
     let tl ← foldsFromStarts (s' :: rest) nb
     pure ((List.range size).map (· + s) :: tl)
 
+/-- `CVFolds(set, validationIndizes)`: the index sets are taken as they are (any order, any content) -/
+def ofSets (set : LabeledData ι κ) (validationIndizes : List (List Nat)) : CVFolds ι κ := ⟨set, validationIndizes⟩
+
 /-- `CVFolds(set, foldStart)` -/
 def ofStarts (set : LabeledData ι κ) (foldStart : List Nat) : R (CVFolds ι κ) := do
   let folds ← ofOpt (foldsFromStarts foldStart set.numberOfBatches)
@@ -43,7 +65,7 @@ def size (f : CVFolds ι κ) : Nat := f.validationFolds.length
 def validationFoldIndices (f : CVFolds ι κ) (i : Nat) : R (List Nat) := ofOpt f.validationFolds[i]?
 /-- `trainingFoldIndices(i)` = `detail::complement(validation, numberOfBatches)` -/
 def trainingFoldIndices (f : CVFolds ι κ) (i : Nat) : R (List Nat) := do
-  pure (Data.complement (← f.validationFoldIndices i) f.dataset.numberOfBatches)
+  pure (complementSD (← f.validationFoldIndices i) f.dataset.numberOfBatches)
 def validation (f : CVFolds ι κ) (i : Nat) : R (LabeledData ι κ) := do
   f.dataset.indexedSubset (← f.validationFoldIndices i)
 def training (f : CVFolds ι κ) (i : Nat) : R (LabeledData ι κ) := do
@@ -55,12 +77,73 @@ end CVFolds
 def pick (set : LabeledData ι κ) (positions : List Nat) : R (List (ι × κ)) :=
   (View.ofDataset set).subBatch positions
 
-/-- common tail of createCVIndexed / createCVFullyIndexed / createCVSameSizeBalanced:
+/-! ### the element-dealing loop of createCVIndexed / createCVFullyIndexed / detail::createCVSameSizeBalanced
+
+```
+for every (element, partition) in processing order:
+    batchElements[partition].push_back(element);
+    batchNumber = validationSetStart[partition];
+    if (batchElements[partition].size() == batchSizes[batchNumber]) {
+        newSet.batch(validationSetStart[partition]) = subBatch(setView, batchElements[partition]);
+        batchElements[partition].clear();  ++validationSetStart[partition];
+    }
+```
+`subBatch(setView, positions)` gathers position by position, so the loop is run on the gathered elements. -/
+
+structure DealState (α : Type) where
+  batches : List (List α)              -- `newSet`: `numBatches` empty batches at the start
+  validationSetStart : List Nat        -- running copy of `partitionStart`
+  batchElements : List (List α)
+  deriving Repr
+
+/-- one iteration; `none` = an index leaves its vector (undefined behaviour in the C++) -/
+def dealStep {α : Type} (batchSizes : List Nat) (s : DealState α) (x : α × Nat) : Option (DealState α) := do
+  let partition := x.2
+  let be ← s.batchElements[partition]?
+  let be := be ++ [x.1]
+  let batchNumber ← cget s.validationSetStart partition
+  let size ← cget batchSizes batchNumber
+  if be.length = size then
+    if batchNumber < s.batches.length then
+      pure ⟨s.batches.set batchNumber be, s.validationSetStart.set partition (batchNumber + 1),
+            s.batchElements.set partition []⟩
+    else none
+  else
+    pure ⟨s.batches, s.validationSetStart, s.batchElements.set partition be⟩
+
+/-- the whole loop: the batches of `newSet` afterwards -/
+def dealLoop {α : Type} (items : List (α × Nat)) (numberOfPartitions numBatches : Nat)
+    (partitionStart batchSizes : List Nat) : Option (List (List α)) := do
+  let s ← items.foldlM (dealStep batchSizes)
+    ⟨List.replicate numBatches [], partitionStart, List.replicate numberOfPartitions []⟩
+  pure s.batches
+
+/-- common tail of createCVIndexed / createCVFullyIndexed / detail::createCVSameSizeBalanced as the C++ runs it, from
+the validation sizes on: `batchPartitioning`, the dealing loop into `newSet`, `CVFolds(set, partitionStart)` -/
+def dealInto (set : LabeledData ι κ) (numberOfPartitions : Nat) (validationSize : List Nat) (assign : List (Nat × Nat))
+    (batchSize : Nat) : R (CVFolds ι κ) := do
+  let (numBatches, partitionStart, batchSizes) ← ofOpt (batchPartitioning validationSize [] [] batchSize)
+  let els ← pick set (assign.map (·.1))
+  let batches ← ofOpt (dealLoop (List.zip els (assign.map (·.2))) numberOfPartitions numBatches partitionStart batchSizes)
+  let newSet : LabeledData ι κ :=
+    ⟨{ batches := batches.map (·.map (·.1)), shape := set.inputs.shape },
+     { batches := batches.map (·.map (·.2)), shape := set.labels.shape }⟩
+  CVFolds.ofStarts newSet partitionStart
+
+/-- createCVIndexed / createCVFullyIndexed: the validation sizes are counted from the fold numbers
+(`validationSize[indices[input]]++`).  Proved equal to its net effect `regroup` for every input
+(`C12.regroupLoop_eq_regroup`). -/
+def regroupLoop (set : LabeledData ι κ) (numberOfPartitions : Nat) (assign : List (Nat × Nat)) (batchSize : Nat) :
+    R (CVFolds ι κ) := do
+  require (assign.all fun a => a.2 < numberOfPartitions)
+  let validationSize := (List.range numberOfPartitions).map fun p => (assign.filter (·.2 = p)).length
+  dealInto set numberOfPartitions validationSize assign batchSize
+
+/-- net effect of `regroupLoop` (specification):
 `assign[j] = (original position, fold)` in processing order.  Fold p receives its elements in
 processing order, cut into the batch sizes `batchPartitioning` computed for it.
-The new set carries the shapes of the old one (the property demands it; the C++ as found builds the new
-set from `LabeledData(numBatches)` and forgets them — finding F11 — so the correspondence reports a
-violation until that is repaired). -/
+The new set carries the shapes of the old one (`newSet.inputShape() = set.inputShape()`; finding F11, repaired in
+/repo e494cb4f). -/
 def regroup (set : LabeledData ι κ) (numberOfPartitions : Nat) (assign : List (Nat × Nat)) (batchSize : Nat) :
     R (CVFolds ι κ) := do
   require (assign.all fun a => a.2 < numberOfPartitions)
@@ -78,13 +161,13 @@ def regroup (set : LabeledData ι κ) (numberOfPartitions : Nat) (assign : List 
 def createCVIndexed (set : LabeledData ι κ) (numberOfPartitions : Nat) (indices : List Nat) (batchSize : Nat) :
     R (CVFolds ι κ) := do
   require (indices.length = set.numberOfElements)
-  regroup set numberOfPartitions (List.zip (List.range indices.length) indices) batchSize
+  regroupLoop set numberOfPartitions (List.zip (List.range indices.length) indices) batchSize
 
 /-- `createCVFullyIndexed(set, numberOfPartitions, (order, partition), batchSize)` -/
 def createCVFullyIndexed (set : LabeledData ι κ) (numberOfPartitions : Nat) (order partition : List Nat)
     (batchSize : Nat) : R (CVFolds ι κ) := do
   require (order.length = set.numberOfElements && partition.length = set.numberOfElements)
-  regroup set numberOfPartitions (List.zip order partition) batchSize
+  regroupLoop set numberOfPartitions (List.zip order partition) batchSize
 
 /-- `createCVIID`: `indices` = what `random::discrete` drew (observed) -/
 def createCVIID (set : LabeledData ι κ) (numberOfPartitions : Nat) (drawn : List Nat) (batchSize : Nat) :
@@ -118,18 +201,44 @@ def validSeq (labels : List Nat) (seq : List Nat) : Bool :=
   (let ls := seq.map fun i => labels[i]?.getD 0
    (List.range (ls.length - 1)).all fun j => ls[j]?.getD 0 ≤ ls[j + 1]?.getD 0)
 
-/-- `createCVSameSizeBalanced`: `seq` = the class-wise shuffled positions in dealing order (observed through
-`RecreationIndices::first`); the j-th dealt element goes to fold j mod k.  Note that the C++ takes the
-validation sizes ⌊n/k⌋(+1) for the batch layout, which equals the dealt fold sizes. -/
+/-- the dealing sequence of `detail::createCVSameSizeBalanced(set, k, members, …)`: `members[0]` shuffled, then
+`members[1]` shuffled, … -/
+def validMembersSeq (members : List (List Nat)) (seq : List Nat) : Bool :=
+  seq.length = (members.map List.length).sum &&
+  (List.zip (splitBySizes seq (members.map List.length)) members).all fun am => am.1.isPerm am.2
+
+/-- `detail::createCVSameSizeBalanced(set, numberOfPartitions, members, batchSize, &cv_indices)` (any label type):
+`seq` = the class-wise shuffled positions in dealing order (observed through `RecreationIndices::first`); the j-th
+dealt element goes to fold j mod k (`fold = (fold+1) % numberOfPartitions`).  The C++ takes the validation sizes
+⌊n/k⌋(+1) of *all* elements for the batch layout. -/
+def createCVSameSizeBalancedMembers (set : LabeledData ι κ) (numberOfPartitions : Nat) (members : List (List Nat))
+    (seq : List Nat) (batchSize : Nat) : R (CVFolds ι κ × List Nat × List Nat) := do
+  require (validMembersSeq members seq)
+  let validationSize ← ofOpt (sameSizes set.numberOfElements numberOfPartitions)
+  require (seq.length = set.numberOfElements)          -- `SHARK_ASSERT(j == numInputs)`
+  let folds := (List.range seq.length).map (· % numberOfPartitions)
+  let f ← dealInto set numberOfPartitions validationSize (List.zip seq folds) batchSize
+  pure (f, seq, folds)
+
+/-- `members[c]` = positions of the elements with label c, ascending (`members[setView[i].label].push_back(i)`) -/
+def classMembers (labels : List Nat) (numClasses : Nat) : List (List Nat) :=
+  (List.range numClasses).map fun c => (List.range labels.length).filter fun i => labels[i]? == some c
+
+/-- `createCVSameSizeBalanced(set, numberOfPartitions, batchSize, &cv_indices)` (class labels) -/
 def createCVSameSizeBalanced (set : LabeledData ι Nat) (numberOfPartitions : Nat) (seq : List Nat) (batchSize : Nat) :
     R (CVFolds ι Nat × List Nat × List Nat) := do
-  let _ ← numberOfClasses set.labels
+  let numClasses ← numberOfClasses set.labels
   let labs ← ofOpt ((View.ofDataset set).elements.mapM id)
   require (validSeq (labs.map (·.2)) seq)
-  require (numberOfPartitions > 0)
-  let folds := (List.range seq.length).map (· % numberOfPartitions)
-  let f ← regroup set numberOfPartitions (List.zip seq folds) batchSize
-  pure (f, seq, folds)
+  createCVSameSizeBalancedMembers set numberOfPartitions (classMembers (labs.map (·.2)) numClasses) seq batchSize
+
+/-- the fold loop of `createCVBatch`: `size = partitionSize; if(remainder > 0){ ++size; --remainder; }`,
+`IndexSet(pos, pos+size)`, `pos += size` -/
+def batchFoldsLoop : Nat → Nat → Nat → List Nat → List (List Nat)
+  | 0, _, _, _ => []
+  | i + 1, partitionSize, remainder, pos =>
+    let size := if remainder > 0 then partitionSize + 1 else partitionSize
+    pos.take size :: batchFoldsLoop i partitionSize (remainder - 1) (pos.drop size)
 
 /-- `createCVBatch`: `perm` = the shuffled batch indices (observed); the dataset itself is unchanged -/
 def createCVBatch (set : LabeledData ι κ) (numberOfPartitions : Nat) (perm : List Nat) : R (CVFolds ι κ) := do
@@ -137,7 +246,6 @@ def createCVBatch (set : LabeledData ι κ) (numberOfPartitions : Nat) (perm : L
   require (isPermOf perm nb)
   let partitionSize ← ofOpt (cdiv nb numberOfPartitions)
   let remainder ← ofOpt (csub nb (partitionSize * numberOfPartitions))
-  let sizes := (List.range numberOfPartitions).map fun i => partitionSize + (if i < remainder then 1 else 0)
-  pure ⟨set, splitBySizes perm sizes⟩
+  pure (CVFolds.ofSets set (batchFoldsLoop numberOfPartitions partitionSize remainder perm))
 
 end SharkVerif.CV
